@@ -13,4 +13,74 @@ theorem toWave_self (s : USpec) : toWave s.wu s = s := by
   cases s with
   | mk wave value wu vu => cases vu <;> simp [toWave, waveTo_self]
 
+/-- `y` is the value at `x` of the piecewise-linear function through the points `(xs[i], ys[i])` — the mathematical
+interpolant, stated without reference to the model's `seg`/`interpAt` -/
+def IsLinInterp (xs ys : List ℚ) (x y : ℚ) : Prop :=
+  ∃ i x0 x1 y0 y1, xs[i]? = some x0 ∧ xs[i+1]? = some x1 ∧ ys[i]? = some y0 ∧ ys[i+1]? = some y1 ∧
+    x0 ≤ x ∧ x ≤ x1 ∧ y = y0 + (y1 - y0) * (x - x0) / (x1 - x0)
+
+theorem seg_spec : ∀ (xs ys : List ℚ) (x a b : ℚ), xs.length = ys.length → 2 ≤ xs.length → StrictInc xs →
+    xs.head? = some a → xs.getLast? = some b → a ≤ x → x ≤ b → IsLinInterp xs ys x (seg xs ys x) := by
+  intro xs
+  induction xs with
+  | nil => intro ys x a b _ h2; simp at h2
+  | cons x0 xs ih =>
+    intro ys x a b hl h2 hs ha hb hax hxb
+    cases xs with
+    | nil => simp at h2
+    | cons x1 rest =>
+      cases ys with
+      | nil => simp at hl
+      | cons y0 ys => cases ys with
+        | nil => simp at hl
+        | cons y1 ys' =>
+          simp at ha; subst ha
+          by_cases hx1 : x ≤ x1
+          · refine ⟨0, x0, x1, y0, y1, by simp, by simp, by simp, by simp, hax, hx1, ?_⟩
+            simp only [seg, hx1, if_true]; ring
+          · have hx1' : x1 ≤ x := le_of_lt (not_le.mp hx1)
+            have hrest : rest ≠ [] := by
+              intro hr; subst hr; simp at hb; subst hb; exact hx1 hxb
+            have hb' : (x1 :: rest).getLast? = some b := by rw [List.getLast?_cons_cons] at hb; exact hb
+            have hl' : (x1 :: rest).length = (y1 :: ys').length := by simpa using hl
+            have h2' : 2 ≤ (x1 :: rest).length := by
+              cases rest with
+              | nil => exact absurd rfl hrest
+              | cons _ _ => simp
+            obtain ⟨i, u0, u1, v0, v1, h1, h2_, h3, h4, h5, h6, h7⟩ :=
+              ih (y1 :: ys') x x1 b hl' h2' (List.pairwise_cons.mp hs).2 (by simp) hb' hx1' hxb
+            refine ⟨i + 1, u0, u1, v0, v1, by simpa using h1, by simpa using h2_, by simpa using h3, by simpa using h4, h5, h6, ?_⟩
+            simp only [seg, hx1, if_false]; exact h7
+
+theorem foldl_min_eq (x : ℚ) : ∀ xs : List ℚ, (∀ y ∈ xs, x ≤ y) → xs.foldl min x = x := by
+  intro xs
+  induction xs with
+  | nil => intro _; rfl
+  | cons y ys ih =>
+    intro h
+    have hy : x ≤ y := h y (by simp)
+    simp only [List.foldl_cons, min_eq_left hy]
+    exact ih (fun z hz => h z (by simp [hz]))
+
+theorem minL_eq_head (l : List ℚ) (h : StrictInc l) : minL l = l.head? := by
+  cases l with
+  | nil => rfl
+  | cons x xs =>
+    simp only [minL, List.head?_cons]
+    rw [foldl_min_eq x xs (fun y hy => le_of_lt ((List.pairwise_cons.mp h).1 y hy))]
+
+theorem maxL_eq_getLast : ∀ (l : List ℚ), StrictInc l → maxL l = l.getLast? := by
+  intro l
+  induction l with
+  | nil => intro _; rfl
+  | cons x xs ih =>
+    intro h
+    cases xs with
+    | nil => simp [maxL]
+    | cons y ys =>
+      have hxy : x < y := (List.pairwise_cons.mp h).1 y (by simp)
+      have := ih (List.pairwise_cons.mp h).2
+      simp only [maxL, List.foldl_cons, max_eq_right (le_of_lt hxy), List.getLast?_cons_cons] at this ⊢
+      exact this
+
 end Lentil.Spec
